@@ -36,6 +36,8 @@ type TypeOpts struct {
 	Depth int
 	// Pointers: recursive shapes through pointers (analysis only: C12, C18)
 	Pointers bool
+	// CaseTwins: two structs whose names differ by case only (Go generators only)
+	CaseTwins bool
 	// PtrFields: pointer typed fields and an embedded pointer (Go generators only: C15)
 	PtrFields bool
 	// NoRoot: place the module outside any go/src/ directory (affects the Dart linker only)
@@ -74,19 +76,20 @@ type gen struct {
 	opts  TypeOpts
 	names map[string]bool
 
-	enums         []*Decl // root enums
-	keyables      []*Decl // named types usable as JSON map keys (ids, named strings/ints, int/string enums)
-	nameds        []*Decl // every other root named non-struct, non-union type
-	unions        []*Decl
-	uconts        []*Decl // named slices / maps of unions
-	structs       []*Decl // root structs usable as field types
-	subTypes      []*Decl // sub-package types usable from the root
-	generics      []*Decl
-	insts         []*TExpr // generic instantiations usable as field types
-	subNames      map[string]bool
-	usedDashComma bool
-	hiddenSub     *Pkg  // sub-package the root does not import directly
-	bridge        *Decl // struct of the next sub-package holding a value of the hidden one
+	enums          []*Decl // root enums
+	keyables       []*Decl // named types usable as JSON map keys (ids, named strings/ints, int/string enums)
+	nameds         []*Decl // every other root named non-struct, non-union type
+	unions         []*Decl
+	uconts         []*Decl // named slices / maps of unions
+	structs        []*Decl // root structs usable as field types
+	subTypes       []*Decl // sub-package types usable from the root
+	generics       []*Decl
+	insts          []*TExpr // generic instantiations usable as field types
+	subNames       map[string]bool
+	usedDashComma  bool
+	foreignNoConst *TExpr // type of a sub-package that has constants only OUTSIDE its package
+	hiddenSub      *Pkg   // sub-package the root does not import directly
+	bridge         *Decl  // struct of the next sub-package holding a value of the hidden one
 }
 
 var typeStems = []string{"Item", "Order", "Client", "Invoice", "Ticket", "Parcel", "Wagon", "Garden", "Planet", "Route", "Sensor", "Ledger", "Recipe", "Module", "Window", "Bridge", "Castle", "Dragon", "Engine", "Forest", "Harbor", "Island", "Jungle", "Kernel", "Lantern", "Meadow", "Needle", "Orchard", "Pillar", "Quarry", "Rocket", "Saddle", "Tunnel", "Valley", "Walrus", "Yacht", "Zipper", "Anchor", "Basket", "Candle"}
@@ -144,6 +147,10 @@ func NewTypeProg(seed int64, idx int, r *rand.Rand, opts TypeOpts) *Program {
 	g.makeStructs()
 	if opts.SameNameInSub && opts.Unions {
 		g.makeSameNameStruct()
+	}
+	if g.foreignNoConst != nil && len(g.structs) > 0 {
+		host := g.structs[0]
+		host.Fields = append(host.Fields, &Field{Name: g.fresh("PlainForeign"), Type: g.foreignNoConst})
 	}
 	if g.bridge != nil && len(g.structs) > 0 {
 		host := g.structs[0]
@@ -505,6 +512,58 @@ func (g *gen) makeEnums() {
 			g.keyables = append(g.keyables, d)
 		}
 	}
+	// an unsigned 64 bit enum with members above the int64 range
+	if g.pr(0.1) {
+		d := g.add(&Decl{Name: g.fresh("Mask" + g.pick(enumStems)), Kind: DEnum, Under: Basic("uint64")})
+		d.Blocks = []*ConstBlock{{Grouped: true, Specs: []*Const{
+			{Names: []string{g.fresh(d.Name + "None")}, Type: true, Value: "0"},
+			{Names: []string{g.fresh(d.Name + "Low")}, Type: true, Value: "2"},
+			{Names: []string{g.fresh(d.Name + "Top")}, Type: true, Value: "1 << 63"},
+			{Names: []string{g.fresh(d.Name + "All")}, Type: true, Value: "1<<64 - 1"},
+		}}}
+		d.Tag("uint64-above-int64")
+		g.p.Feature("enum:uint64-values-above-int64")
+		g.enums = append(g.enums, d)
+	}
+	// a float enum whose values need more than 6 digits
+	if g.pr(0.1) {
+		d := g.add(&Decl{Name: g.fresh("Ratio" + g.pick(enumStems)), Kind: DEnum, Under: Basic("float64")})
+		d.Blocks = []*ConstBlock{{Grouped: true, Specs: []*Const{
+			{Names: []string{g.fresh(d.Name + "Third")}, Type: true, Value: "1.0 / 3"},
+			{Names: []string{g.fresh(d.Name + "Pi")}, Type: true, Value: "3.14159265358979"},
+			{Names: []string{g.fresh(d.Name + "Half")}, Type: true, Value: "0.5"},
+		}}}
+		d.Tag("float-many-digits")
+		g.p.Feature("enum:float-values-with-many-digits")
+		g.enums = append(g.enums, d)
+	}
+	// a constant typed through an ALIAS of an enum is a member of the enum
+	if len(g.enums) > 0 && g.pr(0.15) {
+		e := g.enums[0]
+		if e.Under != nil && (e.Under.Basic == "int" || e.Under.Basic == "string") {
+			al := g.fresh(e.Name + "Alias")
+			v := "77"
+			if e.Under.Basic == "string" {
+				v = `"via-alias"`
+			}
+			g.root.AddExtra("other.go", fmt.Sprintf("type %s = %s\n\n// %s is typed through the alias.\nconst %s %s = %s", al, e.Name, g.fresh(e.Name+"ViaAlias"), e.Name+"ViaAlias", al, v))
+			delete(e.Tags, "plain-iota")
+			e.Tag("constant-typed-through-alias")
+			g.p.Feature("enum:constant-typed-through-an-alias")
+		}
+	}
+	// a named basic WITHOUT constants in the first sub-package, and a constant of it declared by
+	// the root package: not an enum (its own package declares no constant)
+	if len(g.p.Subs) > 0 && g.hiddenSub != g.p.Subs[0] && g.pr(0.2) {
+		sub := g.p.Subs[0]
+		tn := "NoConst" + strings.Title(sub.Name)
+		sub.AddExtra("types.go", fmt.Sprintf("// %s has no constant in its own package.\ntype %s int", tn, tn))
+		g.root.AddExtra("other.go", fmt.Sprintf("const Foreign%s %s.%s = 7", tn, sub.Name, tn), sub.Path)
+		if len(g.structs) > 0 || true {
+			g.foreignNoConst = Raw(sub.Name+"."+tn, sub.Path)
+		}
+		g.p.Feature("enum:foreign-constant-of-a-type-without-own-constants")
+	}
 	// a plain iota block with more than 64 members
 	if g.pr(0.05) {
 		d := g.add(&Decl{Name: g.fresh("Wide" + g.pick(enumStems)), Kind: DEnum, Under: Basic("int")})
@@ -591,6 +650,12 @@ func (g *gen) makeNameds() {
 		d := g.add(&Decl{Name: g.fresh(g.pick(typeStems) + "Val"), Kind: DNamed, Under: Basic(g.pick([]string{"int", "float64", "string", "bool", "uint16", "int32"}))})
 		g.nameds = append(g.nameds, d)
 		g.p.Feature("named-basic:" + d.Under.Basic)
+	}
+	if g.opts.OneLetterNames {
+		d := g.add(&Decl{Name: g.fresh(string(rune('N' + g.r.Intn(3)))), Kind: DNamed, Under: Basic("int64")})
+		g.nameds = append(g.nameds, d)
+		g.keyables = append(g.keyables, d)
+		g.p.Feature("one-letter-named-int64")
 	}
 	if g.opts.NamedTimes {
 		name := g.fresh(g.pick(typeStems) + "Stamp")
@@ -1083,6 +1148,46 @@ func (g *gen) makeStructs() {
 			break
 		}
 	}
+	if g.opts.CaseTwins {
+		stem := g.fresh("Item" + g.pick(typeStems))
+		lower := strings.ToLower(stem[:1]) + stem[1:]
+		g.names[lower] = true
+		lo := g.add(&Decl{Name: lower, Kind: DStruct, Fields: []*Field{{Name: "V", Type: Basic("string")}, {Name: "W", Type: Slice(Basic("int"))}}})
+		up := g.add(&Decl{Name: stem, Kind: DStruct, Fields: []*Field{{Name: "Cache", Type: Ref(lo)}, {Name: "N", Type: Basic("int")}}})
+		g.structs = append(g.structs, up)
+		g.p.Feature("structs-differing-by-case-only")
+	}
+	if g.pr(0.2) && len(g.structs) > 0 {
+		// two serialised fields whose JSON keys differ by case only (encoding/json writes both)
+		st := g.structs[len(g.structs)-1]
+		has := map[string]bool{}
+		for _, f := range flatFieldNames(st) {
+			has[strings.ToLower(f)] = true
+		}
+		if !has["id"] && !has["data"] {
+			st.Fields = append(st.Fields, &Field{Name: "ID", Type: Basic("int")}, &Field{Name: "Id", Type: Basic("string")},
+				&Field{Name: "DataLow", Type: Basic("bool"), Tag: `json:"data"`}, &Field{Name: "DataUp", Type: Slice(Basic("int")), Tag: `json:"DATA"`})
+			g.p.Feature("fields:json-keys-differing-by-case-only")
+		}
+	}
+	if g.opts.Embedded && g.opts.Unions && g.pr(0.4) {
+		// a struct EMBEDDING a union interface: a field named after the interface
+		for _, un := range g.unions {
+			if un.Name[0] >= 'A' && un.Name[0] <= 'Z' {
+				d := g.add(&Decl{Name: g.fresh("Evt" + g.pick(typeStems)), Kind: DStruct, Fields: []*Field{{Embedded: true, Type: Ref(un)}, {Name: "At", Type: Basic("int")}}})
+				g.structs = append(g.structs, d)
+				g.p.Feature("recursive:struct-embedding-a-union-interface") // the promoted marker method makes the struct a member of the union it holds
+				break
+			}
+		}
+	}
+	if g.opts.Unions && len(g.unions) > 0 && g.pr(0.2) {
+		// a named FIXED array of a union
+		un := g.unions[g.r.Intn(len(g.unions))]
+		d := g.add(&Decl{Name: g.fresh(strings.Title(un.Name) + "Triple"), Kind: DNamed, Under: Array(3, Ref(un))})
+		g.uconts = append(g.uconts, d)
+		g.p.Feature("named-fixed-array-of-union")
+	}
 	if g.pr(0.15) && len(g.structs) > 0 {
 		// fixed arrays of the same length over two integer types
 		st := g.structs[0]
@@ -1158,6 +1263,15 @@ func (g *gen) makeRecursive() {
 			obj := g.add(&Decl{Name: g.fresh(strings.Title(un.Name) + "Object"), Kind: DNamed, Under: Map(Basic("string"), Ref(un))})
 			obj.Impls = append(obj.Impls, &Impl{Union: un})
 			g.p.Feature("recursive:union-member-is-map-of-the-union")
+			if g.pr(0.5) {
+				obj.File = "other.go" // reached only through the union
+				g.p.Feature("recursive:container-member-declared-in-other-file")
+			}
+			if g.pr(0.5) {
+				grp := g.add(&Decl{Name: g.fresh(strings.Title(un.Name) + "Group"), Kind: DNamed, Under: Slice(Ref(un)), File: "other.go"})
+				grp.Impls = append(grp.Impls, &Impl{Union: un})
+				g.p.Feature("recursive:union-member-is-slice-of-the-union-in-other-file")
+			}
 		}
 	}
 	if g.opts.Pointers {
@@ -1171,6 +1285,8 @@ func (g *gen) makeRecursive() {
 		a.Under, b.Under = Array(2, Pointer(Ref(b))), Array(3, Pointer(Ref(a)))
 		sl := g.add(&Decl{Name: g.fresh("PtrList"), Kind: DNamed})
 		sl.Under = Slice(Pointer(Ref(sl)))
+		km := g.add(&Decl{Name: g.fresh("PtrKeyed"), Kind: DNamed})
+		km.Under = Map(Pointer(Ref(km)), Basic("float64")) // the KEY leads back to the map
 		g.p.Feature("recursive:pointers")
 	}
 	if g.pr(0.25) {
